@@ -59,6 +59,8 @@ def generate(rng, cfg, guards):
     pairs = sorted(w.items())
     r8 = lambda: rng.randrange(8)
     kinds = ['ineq', 'range', 'mrange', 'roi', 'mask', 'slice', 'elem', 'catroi', 'cat']
+    if 'C05-state-flood' not in guards:
+        kinds.append('flood')
     ops = []
     use_file = rng.chance(0.3)
     if use_file:
